@@ -21,6 +21,7 @@ from typing import Any
 
 from verif import core, fleet
 from verif.translators import best as tbest
+from verif.props import c12_gen as G12
 
 RULE = (
     "seeded histories (1-2 studies sharing one storage, 1-4 objectives with mixed directions, 4-26 events: ask / "
@@ -327,7 +328,7 @@ class Run:
         self.r = r
         self.query_p = query_p
         self.stats = {"queries": 0, "complete": 0, "tie_or_inf": False, "cons": False, "fallback": 0, "valueerror": 0,
-                      "rdb_same_pick": 0, "rdb_other_pick": 0, "front_sizes": 0}
+                      "rdb_same_pick": 0, "rdb_other_pick": 0, "front_sizes": 0, "gen_side_by_side": 0}
         self.stage = "create_study"
         self.studies: list[_Study] = []
         for k, sd in enumerate(case["studies"]):
@@ -346,6 +347,9 @@ class Run:
         resp = S.drv.ask(dict(ev, op="ev"))
         if resp.get("k") != "ev":
             raise core.DriverBroken("driver rejected %s: %s" % (ev, resp))
+        bad = G12.gen_disagreement(resp)   # interpreter of the IR generated from the source vs the hand model (driver `bestgen`)
+        if bad is not None:
+            raise Problem("generated-vs-hand", "after %s the generated _update_cache and the hand model differ: %s" % (json.dumps(ev)[:200], json.dumps(bad)[:400]), False)
 
     def _tid(self, S: _Study, n: int) -> int:
         return S.study._storage.get_trial_id_from_study_id_trial_number(S.study._study_id, n)
@@ -529,6 +533,8 @@ class Run:
                 self.stats["rdb_same_pick" if b == want else "rdb_other_pick"] += 1
             if isinstance(b, int) and b in m["opt"]:
                 fb = S.drv.ask({"op": "fallback", "b": b})
+                if G12.gen_disagreement(fb) is not None:
+                    broke.append(("generated-vs-hand", "Study.best_trial (storage answer %s): generated %s" % (b, json.dumps(G12.gen_disagreement(fb))[:400])))
                 want_s = fb.get("ok") if "ok" in fb else fb.get("err")
                 if obs["study"] != want_s:
                     broke.append(("study-vs-model", "Study.best_trial answered %s; model (storage answer %s) %s" % (obs["study"], b, want_s)))
@@ -542,6 +548,11 @@ class Run:
             broke.append(("front-vs-model", "Study.best_trials answered %s; model %s" % (obs["front"], m["front"])))
         elif isinstance(obs["front"], list):
             self.stats["front_sizes"] += len(obs["front"])
+        bad = G12.gen_disagreement(m)
+        if bad is not None:
+            broke.append(("generated-vs-hand", "the interpreters of the generated IR differ from the hand model: %s" % json.dumps(bad)[:500]))
+        elif "gen" in m:
+            self.stats["gen_side_by_side"] += 1
         if problems:
             raise Problem(problems[0][0], problems[0][1], True)
         if broke:
@@ -598,7 +609,7 @@ def _worker(args: tuple[str, list[dict[str, Any]], int, float, str]) -> dict[str
     t0 = time.time()
     warnings.simplefilter("ignore")
     out: dict[str, Any] = {"cfg": cfg, "cases": [], "failures": [], "stats": {}}
-    drvs = [core.Driver("best"), core.Driver("best")]
+    drvs = [core.Driver(G12.DRIVER), core.Driver(G12.DRIVER)]
     h: fleet.Handle | None = None
     agg: dict[str, int] = {}
     try:
@@ -712,11 +723,15 @@ def arrays(chk: core.Check, n: int) -> None:
 
     r = chk.rng
     cases = [gen_array(r) for _ in range(n)]
-    resp = core.driver_batch("best", [{"op": "front", "rows": [[fx(v) for v in row] for row in rows]} for rows in cases])
+    resp = core.driver_batch(G12.DRIVER, [{"op": "front", "rows": [[fx(v) for v in row] for row in rows]} for rows in cases])
     bad = 0
     for rows, m in zip(cases, resp):
         if "front" not in m:
             raise core.DriverBroken("front: %s" % m)
+        if G12.gen_disagreement(m) is not None:
+            chk.broke("correspondence", {"kind": "generated-vs-hand", "rows": [[fs(v) for v in row] for row in rows], "diff": G12.gen_disagreement(m)})
+        else:
+            chk.count("gen:front-side-by-side")
         arr = np.asarray(rows, dtype=float)
         uniq = np.unique(arr, axis=0)
         try:
@@ -758,7 +773,7 @@ def _array_violation(chk: core.Check, rows: list[list[float]], real: list[bool],
     small = core.ddmin(list(rows), fails, budget=60 if hang else 150)
     case = {"studies": [{"dirs": [1] * len(small[0])}],
             "events": [{"s": 0, "e": "add", "state": "COMPLETE", "values": [fs(v) for v in row], "cons": "absent"} for row in small]}
-    drvs = [core.Driver("best"), core.Driver("best")]
+    drvs = [core.Driver(G12.DRIVER), core.Driver(G12.DRIVER)]
     h = fleet.make("mem", chk.tmp)
     global CASE_LIMIT_S
     old_limit, CASE_LIMIT_S = CASE_LIMIT_S, 15
@@ -803,8 +818,10 @@ def main(chk: core.Check) -> int:
     chk.rule = RULE
     quick = chk.tier == "quick"
     tbest.run(chk)
+    G12.regenerate(chk)   # T-best2: the methods as written today -> Generated/BestMethods.lean (Props/C12Gen, C12GenSpec)
     if not getattr(chk, "no_prove", False):
-        chk.prove()
+        chk.prove(G12.MODULES)
+        G12.explain_proof_failure(chk)
     try:
         core.ensure_driver()
         cases = gen_cases(chk, 500 if quick else 8000, 4, 26 if quick else 40)
@@ -839,8 +856,9 @@ def replay(chk: core.Check, path: str) -> int:
         print(json.dumps(doc.get("no_longer_checks", doc), indent=1)[:3000])
         return 1
     tbest.run(chk)  # the model must describe the tree that is being replayed
+    G12.regenerate(chk)
     core.ensure_driver()
-    drvs = [core.Driver("best"), core.Driver("best")]
+    drvs = [core.Driver(G12.DRIVER), core.Driver(G12.DRIVER)]
     h = fleet.make(w["backend"], chk.tmp)
     try:
         res, _ = run_case(w["backend"], h, {"studies": w["studies"], "events": w["events"]}, drvs, 1.0, 0)
